@@ -35,7 +35,12 @@ func SplitRawStatements(filepath, s string) ([]*RawStatement, error) {
 			if err := lex.NextToken(); err != nil {
 				return nil, err
 			}
+			// The next statement starts at the first comment of its first token, if any,
+			// so that comments following a semicolon are preserved.
 			firstPos = lex.Token.Pos
+			if len(lex.Token.Comments) > 0 {
+				firstPos = lex.Token.Comments[0].Pos
+			}
 			continue
 		}
 
